@@ -1,6 +1,7 @@
 package harness
 
 import (
+	"io"
 	"encoding/json"
 	"fmt"
 	"sort"
@@ -35,6 +36,15 @@ func readAudit(root *simrt.Inode, abs string) (*AuditRec, error) {
 	dec.DisallowUnknownFields()
 	if err := dec.Decode(&r); err != nil {
 		return nil, fmt.Errorf("audit file %s.audit.json is not valid JSON for an audit record: %v (%q)", abs, err, clip(n.Data))
+	}
+	// the file is ONE JSON document: nothing but white space may follow it
+	var extra json.RawMessage
+	if err := dec.Decode(&extra); err != io.EOF {
+		tail := n.Data
+		if off := int(dec.InputOffset()); off > 40 && off <= len(tail) {
+			tail = tail[off-40:]
+		}
+		return nil, fmt.Errorf("audit file %s.audit.json is not valid JSON: data after the end of the record (%v; ...%q)", abs, err, clip(tail))
 	}
 	return &r, nil
 }
@@ -292,7 +302,30 @@ func init() {
 				}
 				return auditOracleOpt(inc.Sim.FS.Root, ex, instsByKey(inc), false)
 			}
-			inc := RunInc(w, c.Tape, nil, 0, IncOpts{KillAt: -1, Strategy: strategyOf(c.Tape), Trace: c.Trace})
+			var root0 *simrt.Inode
+			nextIno0 := 0
+			if c.Tape.Choose(simrt.StGen, 6, 0) == 1 {
+				// stale audit files of an earlier attempt lie at the paths of outputs that
+				// do not exist (a command then did not produce its output; a result was
+				// deleted by hand): valid JSON, much LONGER than the records to come - the
+				// new record must replace the old file, not be written over its beginning
+				s0, _ := freshFS(c, w)
+				n := 0
+				for _, p := range sortedKeys(ex.Files) {
+					if ex.Extras[p] || ex.Owner[p] == nil || ex.StreamPaths[p] || c.Tape.Choose(simrt.StGen, 2, 0) == 1 {
+						continue
+					}
+					stale := fmt.Sprintf("{\n    \"ID\": \"stalestalestalestale\",\n    \"ProcessName\": \"earlier_attempt\",\n    \"Command\": \"%s\",\n    \"Params\": {},\n    \"Tags\": {},\n    \"StartTime\": \"2001-01-01T00:00:00Z\",\n    \"FinishTime\": \"2001-01-01T00:00:01Z\",\n    \"ExecTimeNS\": 1000000000,\n    \"OutFiles\": {},\n    \"Upstream\": {}\n}", strings.Repeat("a long earlier command ", 300))
+					s0.FS.PutFile(p+".audit.json", []byte(stale))
+					n++
+				}
+				if n > 0 {
+					root0, nextIno0 = s0.FS.Root, s0.FS.NextIno
+					c.Fault("stale-longer-audit-files")
+					c.Sample = "stale audit files at the output paths: " + c.Sample
+				}
+			}
+			inc := RunInc(w, c.Tape, root0, nextIno0, IncOpts{KillAt: -1, Strategy: strategyOf(c.Tape), Trace: c.Trace})
 			c.Absorb(inc)
 			if v := flowOracle(inc, ex); v.Status != "ok" {
 				if v.Status == "violation" {
